@@ -44,7 +44,7 @@ fn sqlite_feature(text: &str) -> &'static str {
 /// the first dialect-specific construct present in a rendered text (classifies read-back failures)
 fn feature(text: &str) -> &'static str {
     let up = text.to_uppercase();
-    for (kw, name) in [("TOP (", "top"), ("CONVERT(", "convert"), ("MEAN(", "mean"), ("VAR(", "var"), ("STD(", "std"), ("STDDEV", "stddev"), ("VARIANCE", "variance"), ("FIRST(", "first"), ("LAST(", "last"), ("MD5(", "md5"), ("HASHBYTES", "hashbytes"),
+    for (kw, name) in [("TOP (", "top"), ("CONVERT(", "convert"), ("FLOAT(", "float-call"), ("STRING(", "string-call"), ("MEAN(", "mean"), ("VAR(", "var"), ("STD(", "std"), ("STDDEV", "stddev"), ("VARIANCE", "variance"), ("FIRST(", "first"), ("LAST(", "last"), ("MD5(", "md5"), ("HASHBYTES", "hashbytes"),
                        ("GREATEST(", "greatest"), ("LEAST(", "least"), ("(VALUES", "values"), ("CAST(", "cast"), ("SAFE_CAST", "safe-cast"), ("UNNEST", "unnest"), ("FULL JOIN", "full-join"), ("CASE ", "case"), ("COALESCE(", "coalesce"), ("OFFSET", "offset"), ("LIMIT", "limit")] {
         if up.contains(kw) { return name; }
     }
